@@ -204,10 +204,14 @@ def run(pid, tier, seed, args, t0):
         for n in open_names:
             if by_name[n][0][0].fr is not None:
                 by_fn.setdefault(by_name[n][0][0].fr.qual, set()).add(n)
+        known_names = set(k.get('obligation') for k in opens)
+        budget = 420 if tier == 'quick' else 1500      # wall seconds of counter-model search per function
         for q, names in sorted(by_fn.items()):
+            t_fn = time.time()
+            found_new = False
             for K in (2, 3):
                 todo = [n for n in names if n not in refuted]
-                if not todo:
+                if not todo or found_new or time.time() - t_fn > budget:
                     break
                 frb = eng.verify_function(q, bound=K)
                 if frb.error:
@@ -216,9 +220,12 @@ def run(pid, tier, seed, args, t0):
                 # frame obligation is refuted through any exit obligation of the same function that has a
                 # replayable counter-model
                 loopish = [n for n in todo if ('/inv-' in n or '/frame' in n or '/pre[' in n or '/fieldtype' in n)]
-                for o in frb.obligations:
-                    if o.info.get('trivial'):
-                        continue
+                cands = [o for o in frb.obligations if not o.info.get('trivial')]
+                # known findings first (cheap to confirm), then the open property clauses, then the rest
+                cands.sort(key=lambda o: (o.name not in known_names, o.name not in todo, o.kind not in ('post', 'raises')))
+                for o in cands:
+                    if found_new or time.time() - t_fn > budget:
+                        break       # one replayed violation per function decides the check; the others stay listed as open
                     direct = o.name in todo and o.name not in refuted
                     indirect = loopish and o.kind in ('post', 'raises') and not all(n in refuted for n in loopish)
                     if not (direct or indirect):
@@ -228,9 +235,12 @@ def run(pid, tier, seed, args, t0):
                         continue
                     if direct:
                         refuted[o.name] = rr
+                        if rr.get('replayed') and o.name not in known_names:
+                            found_new = True
                     elif rr.get('replayed'):
                         for n in loopish:
                             refuted.setdefault(n, dict(rr, via_exit_obligation=o.name))
+                        found_new = True
     # ---- finite tables / call-site inventories (exhaustive ground obligations)
     table_results = []
     for tname in P.get('tables', []):
@@ -269,7 +279,7 @@ def run(pid, tier, seed, args, t0):
     violations, known_lines = [], []
     os.makedirs(os.path.join(HERE, 'out', 'replay', pid), exist_ok=True)
 
-    def report(name, detail):
+    def report(name, detail, suffix=''):
         for k in opens:
             if k.get('obligation') == name:
                 ok, msg = RP.run_witness(k.get('witness'))
@@ -277,11 +287,11 @@ def run(pid, tier, seed, args, t0):
                     known_lines.append('KNOWN-FINDING: property=%s %s' % (pid, k['what']))
                     return
                 detail = dict(detail, known_finding_witness_no_longer_reproduces=msg)
-        path = os.path.join(HERE, 'out', 'replay', pid, _safe(name) + '.json')
+        path = os.path.join(HERE, 'out', 'replay', pid, _safe(name) + suffix + '.json')
         with open(path, 'w') as f:
             json.dump(dict(detail, obligation=name, property=pid), f, indent=1, default=str)
-        suffix = '' if detail.get('replayed') else ' no-failing-input-found'
-        violations.append('VIOLATION property=%s replay=%s%s' % (pid, path, suffix))
+        tail = '' if detail.get('replayed') else ' no-failing-input-found'
+        violations.append('VIOLATION property=%s replay=%s%s' % (pid, path, tail))
 
     for name in open_names:
         if name in refuted:
@@ -298,8 +308,13 @@ def run(pid, tier, seed, args, t0):
         if not t['ok']:
             report(t['name'], {'replayed': True, 'table': True, 'witness': t.get('witness')})
     for b in bounded_results:
+        seen_names = {}
         for v in b.get('violations', []):
-            report(v['name'], dict(v, replayed=True, bounded=True))
+            k = seen_names.get(v['name'], 0)
+            seen_names[v['name']] = k + 1
+            if k >= 3:
+                continue            # the first three cases of one bounded clause are reported, the rest is in the evidence
+            report(v['name'], dict(v, replayed=True, bounded=True), suffix=('-%d' % k if k else ''))
     # ---- evidence
     n_obl = len(name_verdict) + len(table_results)
     n_dis = sum(1 for v in name_verdict.values() if v == 'unsat') + sum(1 for t in table_results if t['ok'])
